@@ -55,6 +55,9 @@ func runSessionTypestate(p *Prog, own bool) (*TS, []*ssa.Function) {
 			analysed = append(analysed, fn) // analysed while computing the summary
 			continue
 		}
+		if sum.inline {
+			continue // interpreted inline at each of its (statically known) call sites
+		}
 		ts.Analyze(fn, sum.requiresHeld)
 		analysed = append(analysed, fn)
 	}
